@@ -5,6 +5,8 @@
    stream `print`  -> `ok <hex of q.String()>` | `err`
    stream `refparse` -> as `parse`, answered by the hand-written reference parser (Model/RefTermParser.lean:
                       tokenize + precedence climbing) instead of the LALR tables
+   stream `refprint` -> as `print`, answered by the token-level printer of Model/RefTermParser.lean (`itemsProgram` + `render`)
+                      on the AST of the reference parser
    stream `selfcheck` -> RefTerm.selfCheck: the reference parser's AST is Printable, its print lexes to the printed tokens and
                       parses back to itself (debugging aid, not compared)
    stream `tokens` -> the token list of the lexer alone (debugging aid, not compared)
@@ -72,9 +74,14 @@ def refparseLine (line : String) : String := withSrc line fun src =>
   | some p => "ok " ++ dump (RefTerm.astProgram p)
   | none => "err"
 
+def refprintLine (line : String) : String := withSrc line fun src =>
+  match RefTerm.refParse src with
+  | some p => "ok " ++ hexOf (RefTerm.printProgram p)
+  | none => "err"
+
 def tokensLine (line : String) : String := withSrc line fun src =>
   " ".intercalate ((lexAll (src.length + 2) (LState.init src)).map fun (ty, lv, off) =>
     s!"{ty}:{hexOf lv.token}:{lv.operator}@{off}")
 
 def main (args : List String) : IO UInt32 :=
-  Driver.main [("lex", lexLine), ("parse", parseLine), ("print", printLine), ("refparse", refparseLine), ("selfcheck", fun l => withSrc l RefTerm.selfCheck), ("tokens", tokensLine)] args
+  Driver.main [("lex", lexLine), ("parse", parseLine), ("print", printLine), ("refparse", refparseLine), ("refprint", refprintLine), ("selfcheck", fun l => withSrc l RefTerm.selfCheck), ("tokens", tokensLine)] args
